@@ -249,14 +249,19 @@ Section FilterbufSink.
     end.
   Definition fbs_run (pieces : list (list N)) : list N * bool :=
     fbs_release (fold_left fbs_write pieces ([], [], false)).
+  (* the same when the stream has ALREADY failed before the filter: steal() keeps the error state across the
+     re-seating of the buffer (repaired in 80bcd05), so the sentry blocks every write of the value *)
+  Definition fbs_run_failed (pieces : list (list N)) : list N * bool :=
+    fbs_release (fold_left fbs_write pieces ([], [], true)).
 End FilterbufSink.
 Definition filter_escape_sink (room : nat) (pieces : list (list N)) := fbs_run escape room pieces.
-(* util::urlencode(b,e,streambuf&) hands its ostreambuf_iterator to urlencode_impl BY VALUE and then asks the original
-   for failed(): it returns 0 whatever the sink did (finding C15/2).  So the sink gets the first `room` bytes, the call
-   reports success, the filter buffer never learns about the failure and release() reports success too. *)
-Definition urlencode_stream (room : nat) (s : list N) : list N * bool := (firstn room (urlencode s), true).
-Definition filter_urlencode_sink (room : nat) (pieces : list (list N)) : list N * bool :=
-  (fst (fbs_run urlencode room pieces), true).
+(* util::urlencode(b,e,streambuf&) writes byte by byte through a std::ostreambuf_iterator, which stops writing at the
+   first refused byte and remembers the failure; the iterator that did the writing is handed back by urlencode_impl
+   (repaired in dd45f86: before, failed() was asked of an untouched copy and the call always returned 0).
+   So the sink gets the first `room` bytes and the call reports failure iff something did not fit. *)
+Definition urlencode_stream (room : nat) (s : list N) : list N * bool :=
+  let o := urlencode s in (firstn room o, Nat.leb (length o) room).
+Definition filter_urlencode_sink (room : nat) (pieces : list (list N)) : list N * bool := fbs_run urlencode room pieces.
 (* base64_urlencode: whole value recorded, then written block by block; a short write stops the stream *)
 Definition filter_base64_sink (room : nat) (pieces : list (list N)) : list N * bool :=
   let o := b64encode (concat pieces) in (firstn room o, Nat.leb (length o) room).
@@ -381,20 +386,16 @@ Fixpoint ends_with (p s : list N) : bool :=
   | _ :: s' => if Nat.eqb (List.length s) (List.length p) then starts p s else ends_with p s'
   end.
 
-(* ---------- the error state of the OUTPUT STREAM after a filter (finding C15/1) ----------
-   filterbuf::steal/release and steal_buffer::steal/release re-seat the stream buffer with
-   std::basic_ios::rdbuf(sb), and that call clears the error state of the stream.  So whatever failbit/badbit the
-   stream had before the filter, or got from filterbuf::write while converting into a failing sink, is gone after
-   the filter; the value -1 that release() returns is ignored by filters::escape / filters::urlencode.
-   base64_urlencode writes to the stream after the release of its steal_buffer: a failure of those writes is kept,
-   but a failure that was there before the filter is cleared as well. *)
-Definition stream_good_after_rdbuf (failed_before failed_during : bool) : bool := true.
-Definition filter_escape_stream_ok (room : nat) (pieces : list (list N)) : bool :=
-  stream_good_after_rdbuf false (negb (snd (filter_escape_sink room pieces))).
-Definition filter_urlencode_stream_ok (room : nat) (pieces : list (list N)) : bool :=
-  stream_good_after_rdbuf false (negb (snd (filter_urlencode_sink room pieces))).
-Definition filter_base64_stream_ok (room : nat) (pieces : list (list N)) : bool :=
-  stream_good_after_rdbuf false false && snd (filter_base64_sink room pieces).
-(* a filter applied to a stream that had already failed: the value is written and the stream is good again *)
-Definition filter_on_failed_stream (F : list N -> list N) (v : list N) : list N * bool :=
-  (F v, stream_good_after_rdbuf true false).
+(* ---------- the error state of the OUTPUT STREAM after a filter ----------
+   filterbuf::steal/release and steal_buffer::steal/release re-seat the stream buffer with std::basic_ios::rdbuf(sb),
+   which clears the error state; since 80bcd05 they save rdstate() before and set it again afterwards.  So after a
+   filter the stream is good exactly when it was good before and no conversion into the sink failed (filterbuf::write
+   sets failbit; release() also returns -1).  base64_urlencode writes to the stream after the release of its
+   steal_buffer: a short write there sets badbit in the stream itself. *)
+Definition filter_escape_stream_ok (room : nat) (pieces : list (list N)) : bool := snd (filter_escape_sink room pieces).
+Definition filter_urlencode_stream_ok (room : nat) (pieces : list (list N)) : bool := snd (filter_urlencode_sink room pieces).
+Definition filter_base64_stream_ok (room : nat) (pieces : list (list N)) : bool := snd (filter_base64_sink room pieces).
+(* a filter applied to a stream that had already failed (the result does not depend on the room of the sink: Props.v);
+   base64_urlencode: nothing reaches the steal_buffer, the encoding of the empty string is written (nothing) *)
+Definition filter_on_failed_stream (F : list N -> list N) (v : list N) : list N * bool := fbs_run_failed F 0 [v].
+Definition filter_base64_on_failed_stream (v : list N) : list N * bool := (b64encode [], false).
